@@ -434,3 +434,130 @@ def rule_membership_answers(ctx):
 
 def accept_list_params(fn):
     return list_params_of(fn)
+
+
+# ------------------------------------------------------------------------------------------
+# found by seeded change C07/B: quantifiers over the query list
+
+
+def _predicate_class(prog, clo):
+    """'member' | 'not-member' | 'attacked' | None for a closure `|arg| ..` used in any()/all() over the list"""
+    names = []
+    for x in prog.with_closures(clo):
+        for s in x.calls():
+            names.append(callee_decl(callee_of(s)))
+    attacked = any(n.endswith("AAFramework::iter_attacks_to") for n in names) and any(n.endswith("Attack::attacker") for n in names) and any(n.endswith("slice::contains") for n in names)
+    negated = None
+    for o in origins(clo, {"l": 0, "p": []}, transparent=()):
+        if o.kind == "unop" and o.data["op"] == "Not":
+            negated = True if negated is None else negated
+        elif o.kind == "call" or o.kind == "param" or o.kind == "const":
+            negated = False if negated is None else negated
+        elif o.kind == "unknown" or o.kind == "binop":
+            pass
+    uses_membership = any(n.endswith("slice::contains") for n in names) or any(n == "core::ops::index::Index::index" for n in names)
+    if attacked:
+        return "attacked"
+    if uses_membership and negated is True:
+        return "not-member"
+    if uses_membership and negated is False:
+        return "member"
+    # `in_all[a.id()]` read directly: a copy of an indexed bool
+    return None
+
+
+def rule_list_quantifiers(ctx):
+    prog = ctx.prog
+    r = ctx.rule(
+        "list-quantifiers",
+        "over the whole query list, positive evidence is combined with `any` (some listed argument is in the set) and exclusion with `all` "
+        "(every listed argument is outside / attacked by the set): the only quantifier/predicate pairs that match a disjunctive query",
+    )
+    methods = static_acceptance_methods(prog)
+    roots = [b for _, _, _, b in methods]
+    reach = prog.reachable_from(roots, virtual_dispatch=False)
+    n = 0
+    for b in sorted(reach.values(), key=lambda x: x.id):
+        fn = prog.enclosing_fn(b)
+        if not (fn.path.startswith("solvers::") or "<solvers::" in fn.path.split(" as ")[0]):
+            continue
+        lp = list_params_of(fn) if b is fn else set()
+        if not lp:
+            continue
+        for s in b.calls():
+            d = callee_decl(callee_of(s))
+            if d not in ("core::iter::traits::iterator::Iterator::any", "core::iter::traits::iterator::Iterator::all"):
+                continue
+            if tags.list_kind(prog, b, s.node["args"][0], lp) != "FULL":
+                continue
+            q = d.rsplit("::", 1)[-1]
+            clos = [prog.lib(x) for x in (callee_of(s).get("fn_args") or [])]
+            clos = [c for c in clos if c is not None]
+            if not clos:
+                continue
+            pc = _predicate_class(prog, clos[0])
+            n += 1
+            idx = [x.bb for x in b.calls() if callee_decl(callee_of(x)) in ("core::iter::traits::iterator::Iterator::any", "core::iter::traits::iterator::Iterator::all")].index(s.bb)
+            anchor = "%s|quantifier#%d" % (b.id, idx)
+            if pc is None:
+                r.note("%s: predicate of %s() not classified" % (anchor, q))
+                continue
+            ok = (q, pc) in (("any", "member"), ("all", "not-member"), ("all", "attacked"))
+            r.check(ok, anchor, "%s-of-%s" % (q, pc), "%s(%s) over the listed arguments" % (q, pc), "`%s` is applied to a `%s` test over the listed arguments: a query over several arguments is no longer decided as the disjunction of its members" % (q, pc), s.loc())
+    r.floor(n, 6, "quantifiers over the query list in static acceptance code")
+
+
+# ------------------------------------------------------------------------------------------
+# found by seeded change C04/A: the completion of a certificate uses the solver's own semantics
+
+PRODUCERS = r"(AAFramework::grounded_extension|grounded_extension_computer::grounded_extension|maximal_extension_computer::new_for_preferred_semantics|maximal_extension_computer::new_for_ideal_semantics|maximal_range_semantics_solvers::new_maximal_extension_computer|MaximalExtensionComputer::compute_maximal|IdealSemanticsSolver::compute_one_extension_for_cc|ideal_semantics_solver::compute_maximal_with_allowed|SatSolver::solve)$"
+
+
+def _producers_in(prog, b, blocks=None):
+    out = set()
+    for s in b.calls():
+        if blocks is not None and s.bb not in blocks:
+            continue
+        c = callee_of(s)
+        if callee_matches(c, PRODUCERS):
+            out.add(strip_generics(callee_name(c)).rsplit("::", 1)[-1] if not callee_matches(c, r"new_") else strip_generics(callee_name(c)).rsplit("::", 1)[-1])
+    return out
+
+
+def rule_completion_semantics(ctx):
+    prog = ctx.prog
+    r = ctx.rule(
+        "completion-semantics",
+        "the extensions used to complete a certificate on the untouched components are computed the way the same solver computes one extension "
+        "per component (sibling agreement with compute_one_extension); the complete solver, which answers no SE problem, completes with grounded "
+        "extensions (complete by definition)",
+    )
+    n = 0
+    for b in sorted(prog.lib_bodies(), key=lambda x: x.id):
+        if b.kind == "closure" or not (b.path.startswith("solvers::") or "<solvers::" in b.path.split(" as ")[0]):
+            continue
+        drains = [s for s in b.calls() if callee_matches(callee_of(s), r"ConnectedComponentsComputer::next_connected_component$") and b.in_loop(s.bb)]
+        if not drains:
+            continue
+        adt = (b.impl or {}).get("self_adt")
+        if not adt:
+            continue
+        n += 1
+        head = b.in_loop(drains[0].bb)[-1]
+        blocks = dict(b.loops())[head]
+        got = _producers_in(prog, b, blocks)
+        # the sibling: per-component loop of compute_one_extension on the same type (or the helper type)
+        sib = None
+        for x in prog.lib_bodies():
+            if x.kind != "closure" and (x.impl or {}).get("self_adt") == adt and (x.name or "") == "compute_one_extension":
+                sib = x
+        if sib is not None:
+            loops = sib.loops()
+            sblocks = set()
+            for h, bl in loops:
+                sblocks |= bl
+            want = _producers_in(prog, sib, sblocks) - {"solve"}
+            r.check(got - {"solve"} == want and bool(want), b.id + "|completion", "producers=%s want=%s" % (sorted(got), sorted(want)), "completion uses %s, like compute_one_extension" % sorted(want), "the certificate is completed on the other components with %s, but this solver's extensions are computed with %s: the completed set need not be an extension under the queried semantics" % (sorted(got), sorted(want)), drains[0].loc())
+        else:
+            r.check(got == {"grounded_extension"}, b.id + "|completion", "producers=%s" % sorted(got), "completion uses grounded extensions (complete)", "a solver without single-extension computation completes its certificate with %s" % sorted(got), drains[0].loc())
+    r.floor(n, 4, "certificate completion loops")
